@@ -78,6 +78,19 @@ func sliceElems(v ssa.Value) ([]ssa.Value, bool) {
 		if x.Value == nil {
 			return nil, true
 		}
+	case *ssa.MakeSlice:
+		// l := make([]T, len(src)[, cap]); copy(l, src)
+		for _, r := range refs(x) {
+			if call, ok := r.(*ssa.Call); ok && callName(&call.Call) == "builtin:copy" && call.Call.Args[0] == ssa.Value(x) {
+				src := call.Call.Args[1]
+				if lc, ok := x.Len.(*ssa.Call); ok && callName(&lc.Call) == "builtin:len" && lc.Call.Args[0] == src {
+					return sliceElems(src)
+				}
+			}
+		}
+		if n, ok := constInt(x.Len); ok && n == 0 {
+			return nil, true
+		}
 	}
 	return nil, false
 }
